@@ -1,9 +1,9 @@
 ---- MODULE XdsResourceMC ----
 (***************************************************************************)
-(* Stage (a) for C45 (EDS): one TLC state per abstract                     *)
-(* ClusterLoadAssignment (successor of a seed state).  The invariant       *)
-(* checks that the documented validation rules accept exactly the          *)
-(* resources whose prescribed summary satisfies the documented invariants. *)
+(* Stage (a) for C45 (EDS, LDS): one TLC state per abstract                *)
+(* ClusterLoadAssignment / Listener (successor of a seed state).  The     *)
+(* invariants check that the documented validation rules accept exactly   *)
+(* the resources whose prescribed summary satisfies the invariants.       *)
 (***************************************************************************)
 EXTENDS XdsResource, TLC
 CONSTANTS Mutant, Big
@@ -27,11 +27,41 @@ Group(s) ==
     [] s = "three" -> {Cla(TRUE, <<Loc(1, p1, "1", <<Ep(1, "1")>>), Loc(2, p2, w, <<Ep(2, "1")>>), Loc(i3, p3, "max", <<Ep(3, "unset")>>)>>, <<>>) :
                          p1, p2, p3 \in 0..3, w \in {"0", "max"}, i3 \in {1, 3}}
     [] OTHER -> {}
-Init == kind = "seed" /\ x \in {"one", "two", "three"}
-Next == kind = "seed" /\ kind' = "eds" /\ x' \in Group(x)
+\* ---- abstract Listeners
+Fl(k, o, n) == [kind |-> k, opt |-> o, nm |-> n]
+Kinds == {"router", "fault", "rbac", "unknown"}
+F12 == {Fl(k, o, n) : k \in Kinds, o \in BOOLEAN, n \in {1, 2}}
+FLists == {<<>>} \cup {<<a>> : a \in F12} \cup {<<a, b>> : a, b \in F12}
+          \cup {<<Fl(k1, o1, 1), Fl(k2, o2, 2), Fl(k3, o3, n3)>> :
+                  k1, k2, k3 \in Kinds, o1, o2, o3 \in BOOLEAN, n3 \in (IF Big = 1 THEN {1, 3} ELSE {3})}
+          \cup {<<Fl("router", FALSE, 0)>>, <<Fl("unknown", TRUE, 0), Fl("router", FALSE, 1)>>}
+Lis(n, sd, fs, rt, ch) == [name |-> n, side |-> sd, filters |-> fs, route |-> rt, chain |-> ch]
+FRep == {<<Fl("router", FALSE, 1)>>, <<Fl("unknown", TRUE, 1)>>, <<Fl("fault", TRUE, 1), Fl("rbac", TRUE, 2), Fl("router", FALSE, 3)>>,
+         <<>>, <<Fl("router", FALSE, 1), Fl("router", FALSE, 2)>>}
+GroupL(s) ==
+  CASE s = "la" -> {Lis(TRUE, "api", fs, "rds", "none") : fs \in FLists}
+    [] s = "lb" -> {Lis(TRUE, "server", fs, "rds", "fc") : fs \in FLists}
+    [] s = "lc" -> {Lis(n, "api", fs, rt, "none") : n \in BOOLEAN, fs \in FRep, rt \in {"rds", "inline", "none", "noname"}}
+                   \cup {Lis(n, "server", fs, rt, ch) : n \in BOOLEAN, fs \in FRep, rt \in {"rds", "inline", "none", "noname"},
+                                                         ch \in {"fc", "default", "both", "none"}}
+    [] OTHER -> {}
+LSeeds == {"la", "lb", "lc"}
+Init == kind = "seed" /\ x \in {"one", "two", "three"} \cup LSeeds
+Next == kind = "seed" /\ \/ (x \notin LSeeds /\ kind' = "eds" /\ x' \in Group(x))
+                         \/ (x \in LSeeds /\ kind' = "lds" /\ x' \in GroupL(x))
 
 I_RulesGiveInvariants ==
   kind = "eds" =>
     LET syntactic == x.name /\ \A i \in 1..Len(x.locs) : x.locs[i].id # 0
     IN AcceptRules(x, Mutant = 1) = (syntactic /\ InvEDS(Summary(x)))
+\* LDS: the operational rules accept exactly the listeners that are syntactically complete, have no
+\* fatal (non-optional, unusable) filter and no empty / repeated filter name, and whose prescribed
+\* summary satisfies the invariants
+I_LdsRulesGiveInvariants ==
+  kind = "lds" =>
+    LET syntactic == /\ x.name /\ x.route \in {"rds", "inline"}
+                     /\ \A i \in 1..Len(x.filters) : /\ x.filters[i].nm # 0
+                                                      /\ (Usable(x.filters[i], x.side) \/ x.filters[i].opt)
+                     /\ \A i, j \in 1..Len(x.filters) : i < j => x.filters[i].nm # x.filters[j].nm
+    IN AcceptRulesL(x, Mutant = 2) = (syntactic /\ InvLDS(SummaryL(x)))
 ====
